@@ -48,8 +48,10 @@ def run(ctx, out):
         seed_off=401,
         n_sim=1500 if ctx.quick else 9000,
         n_rand=500 if ctx.quick else 5000,
+        n_edge=150 if ctx.quick else 1500,
+        n_elem=120 if ctx.quick else 1200,
     )
-    for key in ("throttled_requests", "requests_behind_schedule", "requests_that_slept_until_schedule", "failed_requests", "weight_changes", "runs_aborted_by_unit_check", "runs_with_unit_conversion", "poisson_requests"):
+    for key in ("requests_decided_within_1ms_before_schedule", "runs_of_wrapped_clients_on_overcommitted_element", "throttled_requests", "requests_behind_schedule", "requests_that_slept_until_schedule", "failed_requests", "weight_changes", "runs_aborted_by_unit_check", "runs_with_unit_conversion", "poisson_requests"):
         if not cov[key]:
             out.vacuous.append("no executed run exercised: " + key)
 
